@@ -1,4 +1,5 @@
 """C04 - terminal statuses are final; forbidden status requests have no effect."""
+from ovf.props.c03 import parked  # noqa: F401
 from ovf.props.common import batches, scale, ASSUME_SIM
 from ovf.workloads import conduct, corpus, mon  # noqa: F401
 from ovf.props.reqsweep import request_sweep  # noqa: F401
@@ -9,7 +10,7 @@ RULE = ("(1) generated definitions x hashed outcomes x lazy schedules in which e
         "after the workflow became terminal (late reports), with crashes and early renders; offers after a terminal "
         "status, exceptions on late reports and status changes are asserted on every suffix; (2) request sweep: at "
         "every visited state of small histories each of the 16 statuses is requested on an alias-preserving clone and, "
-        "if the request raises, the persisted state must equal the state before; non-trivial = history with at least "
+        "if the request raises, the persisted state must equal the state before; tasks that wait at the provider (pending / paused) when the cancel request comes, their answers arriving after the workflow was canceled; non-trivial = history with at least "
         "one API call after the first terminal status, or a (state, request) pair that was rejected; distinct = "
         "(definition, history) resp. (state digest, request) digest")
 ASSUMPTIONS = ASSUME_SIM
@@ -27,6 +28,10 @@ def jobs(tier, seed):
                                                                 reqs=["canceling", "canceled", "pausing"]), name="late-reports")
     js += batches("request_sweep", scale(tier, 60, 1200), scale(tier, 5, 30), gen="mix", p_loop=0.2, gseed=seed + 11,
                   P=dict(P, nmax=5, p_items=0.3), name="request-sweep")
+    # tasks that wait at the provider (pending / paused) when the cancel request comes: the workflow is canceled at once and
+    # their answers arrive late
+    js += batches("parked", scale(tier, 120, 2500), scale(tier, 10, 100), gen="dag", gseed=seed + 13, p_fail=0.35, cancel_at_rest=60, p_park=45,
+                  P=dict(p_intjoin=0.2, p_items=0.2, p_retry=0.1, p_fail_cmd=0.3, nmax=5), scheds=2, name="cancel-while-a-task-waits")
     # the repository's own fixture definitions under generated outcomes, schedules and requests
     js += [dict(fn="corpus", parts=4, part=i, runs=scale(tier, 4, 40), gseed=seed, ctl=dict(crash=0.04, early_render=0.5), name="corpus") for i in range(4)]
     return js
